@@ -37,6 +37,10 @@ pub struct MasterScript {
     pub lower_port: bool,
     /// from this interval on the master announces `steps_late` instead of `steps` (a known master
     /// that starts reporting stepsRemoved >= 255, or returns from it); 0 = never
+    /// port number of the announcing port (0 = 1): two scripts with the same `id` and different
+    /// port numbers are two ports of one foreign clock, each with its own record
+    #[serde(default)]
+    pub port: u16,
     #[serde(default)]
     pub late_from: u32,
     #[serde(default)]
@@ -140,7 +144,7 @@ pub fn run_case(rep: &mut Report, case: &Case, verbose: bool) -> bool {
         }
     }
     evs.sort_by_key(|e| (e.0, e.1));
-    let pids: Vec<Pid> = case.masters.iter().map(|m| Pid { clock: if m.own_identity { own_clock } else { clock_id(m.id).0 }, port: if m.own_identity { if m.lower_port { 0 } else { 9 } } else { 1 } }).collect();
+    let pids: Vec<Pid> = case.masters.iter().map(|m| Pid { clock: if m.own_identity { own_clock } else { clock_id(m.id).0 }, port: if m.own_identity { if m.lower_port { 0 } else { 9 } } else { m.port.max(1) } }).collect();
     let mut receipts: Vec<Receipt> = vec![];
     let mut snaps: Vec<Snap> = vec![];
     for (t, _, ev) in evs {
@@ -348,7 +352,7 @@ pub fn run_case(rep: &mut Report, case: &Case, verbose: bool) -> bool {
 
 fn single(pattern: u32, phase: u64, offset: u64, seq_base: u16, seed: u64) -> Case {
     Case {
-        masters: vec![MasterScript { id: 0x10, p1: 100, pattern, offset, seq_base, steps: 0, mode: 0, own_identity: false, lower_port: false, late_from: 0, steps_late: 0 }],
+        masters: vec![MasterScript { id: 0x10, p1: 100, pattern, offset, seq_base, steps: 0, mode: 0, own_identity: false, lower_port: false, port: 1, late_from: 0, steps_late: 0 }],
         intervals: 16,
         bmca_phase: phase,
         own_class: 248,
@@ -359,7 +363,7 @@ fn single(pattern: u32, phase: u64, offset: u64, seq_base: u16, seed: u64) -> Ca
 
 pub fn run(rep: &mut Report, tier: &str, seed: u64, shard: (u32, u32), replay: Option<&str>) {
     rep.rule = "one real port, 1-3 (and 8/9) scripted masters announcing according to presence patterns over 16 announce intervals (I = 64 ticks), per-master arrival offsets, four BMCA phases, sequence ids straddling 65535->0, duplicated / re-ordered / stale sequence ids, stepsRemoved 254/255/256, own-identity senders, clockClass 248 and 6 (passive) instances; receipts and per-BMCA snapshots are checked offline; single-master patterns are enumerated (all 2^16 in thorough); distinct = distinct cases; non-trivial = the port was Slave or Passive after at least one BMCA".into();
-    rep.require(&["announce_receipt", "bmca_snapshot", "slave_after_bmca", "passive_after_bmca", "l1_checked", "l2_checked", "port_made_faulty", "port_recovered_from_faulty"]);
+    rep.require(&["announce_receipt", "bmca_snapshot", "slave_after_bmca", "passive_after_bmca", "l1_checked", "l2_checked", "port_made_faulty", "port_recovered_from_faulty", "two_ports_of_one_foreign_clock"]);
     if let Some(path) = replay {
         let v: serde_json::Value = serde_json::from_str(&std::fs::read_to_string(path).unwrap()).unwrap();
         if let Ok(c) = serde_json::from_value::<Case>(v["case"].clone()) {
@@ -418,6 +422,24 @@ pub fn run(rep: &mut Report, tier: &str, seed: u64, shard: (u32, u32), replay: O
             }
         }
     }
+    // two ports of one foreign clock, one Announce each: neither qualifies
+    if shard.0 == 0 {
+        for k in 0..12u32 {
+            for gap in 0..3u32 {
+                for (pi, &ph) in phases.iter().enumerate() {
+                    let mut case = single(1 << k, ph, [16u64, 48][pi % 2], 65530, seed.wrapping_add(300 + k as u64));
+                    let mut m2 = case.masters[0].clone();
+                    m2.port = 2;
+                    m2.pattern = 1 << (k + gap);
+                    m2.offset = [40u64, 8][pi % 2];
+                    m2.seq_base = 65531 + gap as u16;
+                    case.masters.push(m2);
+                    count(rep, &case);
+                    rep.ev("two_ports_of_one_foreign_clock");
+                }
+            }
+        }
+    }
     // multi master / hostile variants
     let n: u64 = if thorough { 300_000 } else { 8_000 };
     let budget = Budget::new(n, if thorough { 600.0 } else { 15.0 });
@@ -451,9 +473,20 @@ pub fn run(rep: &mut Report, tier: &str, seed: u64, shard: (u32, u32), replay: O
                 mode: [0u8, 0, 0, 1, 2, 3][rng.gen_range(0..6)],
                 own_identity: rng.gen_bool(0.05),
                 lower_port: false,
+                port: 1,
                 late_from: if rng.gen_bool(0.15) { rng.gen_range(2..12) } else { 0 },
                 steps_late: [255u16, 256, 65535, 300, 0, 254][rng.gen_range(0..6)],
             });
+        }
+        if nm <= 3 && rng.gen_bool(0.2) {
+            // another port of the first master's clock on the segment, announcing sparsely
+            let mut m2 = masters[0].clone();
+            m2.port = [2u16, 3, 65535][rng.gen_range(0..3)];
+            m2.pattern = (1u32 << rng.gen_range(0..16)) | (1u32 << rng.gen_range(0..16)) | if rng.gen_bool(0.3) { rng.gen_range(0..65536) } else { 0 };
+            m2.offset = rng.gen_range(1..63);
+            m2.seq_base = masters[0].seq_base.wrapping_add(rng.gen_range(0..40));
+            m2.own_identity = false;
+            masters.push(m2);
         }
         if rng.gen_bool(0.15) {
             // a sibling port of the own instance announcing in (nearly) every interval
@@ -467,6 +500,7 @@ pub fn run(rep: &mut Report, tier: &str, seed: u64, shard: (u32, u32), replay: O
                 mode: 0,
                 own_identity: true,
                 lower_port: true,
+                port: 0,
                 late_from: 0,
                 steps_late: 0,
             });
